@@ -731,7 +731,7 @@ def run(tier, seed, replay=None):
     ck = Check("C17", tier, seed)
     ck.clean_replays()
     quick = tier == "quick"
-    per = 40 if quick else 1500
+    per = 40 if quick else 600
     ck.rule = ("%d seeded random calls of each of the 34 routines x 16 workers (dimensions 0..3 and default forms, increments, offsets, leading "
                "dimensions, flags, scalars, buffers at / beyond / one short of the footprint); distinct = distinct (routine, typecode, dims, flags) classes" % per)
     ck.trusted = ["TLC (Blas.tla: defaults, accept/reject, footprints, reference results)"]
